@@ -3,6 +3,7 @@ package main
 import (
 	stdjson "encoding/json"
 	"fmt"
+	"strings"
 	"sync"
 
 	"verifharness/jsonread"
@@ -261,7 +262,36 @@ func (e *engine) depthLimit(worker int, max int) {
 			slot++
 		}
 	}
+	wg.Add(1)
+	go func(worker int) {
+		defer wg.Done()
+		e.deepCopyCase(worker, max)
+	}(slot)
 	wg.Wait()
+}
+
+// deepCopyCase: nesting beyond the limit that arises INSIDE one Apply: a copy puts a 0.6*max-deep value 0.5*max levels
+// below itself, a second copy duplicates the result (one re-encoded value nested deeper than max), a later operation
+// walks into the duplicate.  Every input is well-formed and within the limit; the call must return.
+func (e *engine) deepCopyCase(worker int, max int) {
+	n, k := max*6/10, max/2
+	doc := []byte(`{"a":` + strings.Repeat("[", n) + strings.Repeat("]", n) + `}`)
+	patch := []byte(`[{"op":"copy","from":"/a","path":"/a` + strings.Repeat("/0", k) + `/-"},{"op":"copy","from":"/a","path":"/b"},` +
+		`{"op":"add","path":"/b/0/-","value":1},{"op":"test","path":"/b","value":[]}]`)
+	e.rep.Label("Depth_built_by_copy")
+	viol := func(kind, detail string) *lib.Violation {
+		c := map[string]interface{}{"fam": "word", "text": fmt.Sprintf("<document {\"a\": %d nested arrays}; copy /a below itself at depth %d, copy /a to /b, add /b/0/->", n, k),
+			"doc_text": string(doc), "patch_text": string(patch), "depth": n + k}
+		return &lib.Violation{Property: e.prop, Kind: kind, Detail: detail,
+			Sig: map[string]string{"fam": "word", "kind": kind, "lab": "", "lastop": "", "api": "Apply(deep copy)", "empty": "false"}, Case: c}
+	}
+	pan := e.wd.Guard(worker, func() *lib.Violation { return viol("hang", "") }, func() {
+		lib.Apply(doc, patch, lib.Opts{Neg: true, Esc: true}, "")
+	})
+	e.rep.Count("executions", 1)
+	if pan != "" {
+		e.rep.Report(viol("panic", "Apply panicked on a value nested deeper than the limit that its own copy operations built: "+firstLine(pan)))
+	}
 }
 
 func (e *engine) depthCase(worker int, max int, d int, shape string) {
